@@ -157,17 +157,19 @@ class FakeRepo(Repository):
         return sha
 
     def set_remote(self, name, sha):
-        """Force a remote head (sha=None deletes it); tracking ref follows."""
-        self._remote_branches = dict()
-        self._remote_heads = defaultdict(set)
+        """Force a remote head (sha=None deletes it), as another user of the
+        server would.  Like any out-of-band change this neither moves the
+        clone's origin/* refs (see fetch()) nor refreshes the real
+        Repository's ls-remote cache (``refresh_cache=True`` / ``reset()``).
+        """
         if sha is None:
             self.remote.pop(name, None)
-            self.tracking.pop(name, None)
         else:
-            sha = self._resolve_any(sha)
-            self.remote[name] = sha
-            if self.cloned:
-                self.tracking[name] = sha
+            self.remote[name] = self._resolve_any(sha)
+
+    def fetch(self):
+        """``git remote update origin --prune``: refresh origin/* refs."""
+        self.tracking = dict(self.remote)
 
     def set_tag(self, name, ref, where='both'):
         sha = self._resolve_any(ref)
@@ -179,9 +181,8 @@ class FakeRepo(Repository):
     def _set(self, name, sha, where):
         if where in ('both', 'remote'):
             self.remote[name] = sha
+        if where == 'both':
             self.tracking[name] = sha
-            self._remote_branches = dict()
-            self._remote_heads = defaultdict(set)
         if where in ('both', 'local'):
             self.local[name] = sha
 
@@ -526,8 +527,8 @@ class FakeRepo(Repository):
 
     # -- push ---------------------------------------------------------- #
     def _git_push(self, argv, command):
-        self._remote_branches = dict()
-        self._remote_heads = defaultdict(set)
+        # NB: like the real Repository, the ls-remote cache (_remote_branches
+        # / _remote_heads) is NOT refreshed by a push.
         flags = [a for a in argv if a.startswith('-')]
         rest = [a for a in argv if not a.startswith('-')]
         if '--all' in flags:
